@@ -15,6 +15,9 @@ CLAIMED = {
     'C02': ('4 C02', 'TLC model checking of the sort-merge mechanism (MergeJoin: refinement of the law-level join/anti-join and termination under fairness) and of the law level (MC_Join) + TLC-enumerated key tables decorated and replayed through join, *, xor, / under a CPU-time watchdog, every call validated by the TLA+ trace specification Trace_Join (bag equality with the relational join)',
             'The two-cursor merge is proved (within 2 rows a side over 8 key values incl. two NaN identities) to terminate and to pair exactly the key-equal rows; every real call (thousands of enumerated and random operand pairs x spellings x modes) is judged by TLC against the law-level definition as a multiset, operands compared before/after, non-termination detected by watchdog.',
             'Trusted: TLC, harness/enc.py, the 3 s CPU watchdog as a termination oracle. xor without key columns returns x (named deviation XorNoKey).'),
+    'C11': ('4 C11', 'TLC model checking that the constructive regrouping (stable sort by keys + runs) satisfies the relational verdicts (MC_Regroup) + TLC-enumerated tables x key choices replayed through listby/unlist, groupby/ungroup, pivot/unpivot + random tables, every call chain validated by the TLA+ trace specification Trace_Regroup',
+            'One row per key class with the class values in row order, sizes adding up, unlist = stable sort under the real cmp (sorted, stable, contiguous, same multiset of rows), ungroup = same multiset, pivot cells = aggregate of the matching z values / None, unpivot restoring the unique (x, y, z) rows: all judged by TLC on every observation.',
+            'Trusted: TLC, harness/enc.py. Key cells compared with the key equality of C02 (a class shows one representative).'),
 }
 PENDING_REASON = 'check not built yet in this round (planned, see DESIGN.md section 4); not claimed until its specification and conformance harness exist'
 
